@@ -353,6 +353,16 @@ func GenWorld(r *Run, o GenOpts) *World {
 				data = []byte{1}
 			}
 			r.Probe("duplicate-file-content")
+		} else if !o.RandomOnly && i > 0 && len(w.Files[i-1].Data) > 2 && t.Bool(1, 14, "prefix-or-suffix") {
+			// the content is a proper prefix or suffix of the previous file's
+			prev := w.Files[i-1].Data
+			k := 1 + t.Draw(len(prev)-1, "cut")
+			if t.Bool(1, 2, "suffix") {
+				data = append([]byte(nil), prev[k:]...)
+			} else {
+				data = append([]byte(nil), prev[:k]...)
+			}
+			r.Probe("file-is-prefix-or-suffix-of-another")
 		} else if !o.RandomOnly && i > 0 && len(w.Files[i-1].Data) > 16384 && t.Bool(1, 3, "near-dup-16k") {
 			// same length and same first 16 KiB as the previous file,
 			// different afterwards: the two files share their 16k hash
